@@ -86,7 +86,9 @@ def r3(ctx):
                PK + '::extension_fields::ExtensionField::into_owned'}
     ctx.check('InvalidNtsEncryptedField|construction-sites', set(where) <= allowed, 'constructed in %s' % sorted(where), sample=where)
     d = P.body(PK + '::extension_fields::ExtensionFieldData::deserialize')
-    flags = [s for s in d.assigns(lambda pl: not pl['p']) if s.kind == 'assign' and d.local_name(s.data['place']['l']) == 'is_valid_nts' and written_value(d, s) == '0']
+    fl_idx = flag_locals(d)
+    fl = one(sorted(set(fl_idx.values())), 'the validity flag of ExtensionFieldData::deserialize')
+    flags = [s for s in d.assigns(lambda pl: not pl['p']) if s.kind == 'assign' and s.data['place']['l'] in fl_idx and written_value(d, s) == '0']
     for s in d.aggregates(r'extension_fields::ExtensionField$', 'InvalidNtsEncryptedField'):
         ok = any(must_pass_block_from(d, s.bb, r.bb, [f.bb for f in flags]) for r in d.returns()) and all(
             must_pass_block_from(d, s.bb, r.bb, [f.bb for f in flags]) or True for r in d.returns())
@@ -95,7 +97,7 @@ def r3(ctx):
         ctx.check('deserialize|%s|marks-invalid' % site_desc(d, s), ok, 'InvalidNtsEncryptedField pushed without marking the packet invalid', s.where())
     oks = [s for s in d.aggregates(r'DeserializedExtensionField$')]
     for s in oks:
-        ctx.guard(d, s, 'valid', lambda f: f.kind == 'bool' and f.pol and tstr(f.term).startswith('is_valid_nts'), key='deserialize|Ok|is_valid_nts')
+        ctx.guard(d, s, 'valid', lambda f: f.kind == 'bool' and f.pol and re.match(r'^%s\b' % re.escape(fl), tstr(f.term)) is not None, key='deserialize|Ok|is_valid_nts')
 
 
 def r4(ctx):
